@@ -307,7 +307,7 @@ def t_strain_increment(sess):
 def t_pathline_helpers(sess):
     pl = pydrex_modules()["pathlines"]
     sess.encode(pl._is_inside, pl._ivp_func, pl._ivp_jac)
-    sess.outside_claim("existence, end point, monotone timestamps, dx/dt = u along the pathline, staying inside the box and the 1.25 x strain slack of get_pathline: they depend on scipy.integrate.solve_ivp (LSODA + event root finding) and a stateful closure")
+    sess.outside_claim("get_pathline itself is decided around a contract solve_ivp in t_get_pathline / t_pathline_event; accuracy of the integrated curve and the 1.25 x slack of the event location remain scipy's")
 
     def fn():
         x = quat.symvec("x", 3)
